@@ -11,6 +11,12 @@ CLAIMED = {
          "path-sensitive must-pass-through (SSA) + provenance + writer/reader agreement"),
  "C07": ("roll-back discipline: the failure edge of every transaction runs the complete undo set and never flushes; every TxnWrap is undone on every exit; ResetCaches covers every cache field; proposal/commit entry points reset speculative state; no state-writing error is dropped",
          "path-sensitive pairing analysis (SSA, defers modelled) + field coverage + dropped-error scan over the call graph"),
+ "C09": ("single-atomic-write structure: the only durable pebble writes are the one Apply in Store.Commit and the offline Rollback; every logical store writes into the one shared batch; Apply only after Root/setCommitID/Flush ok, version advances only on Apply's ok-edge, nothing fails after Apply; indexes are written into the same store before Commit; re-open reads the key Commit wrote",
+         "who-may-call on resolved pebble methods + SSA value identity of the shared batch + path-sensitive must-pass-through"),
+ "C10": ("immutability clause only: versioned writes target version+1, the latest-state sentinel or the offline rollback; read-only views have no writer; historical loaders read through TimeMachine at the requested height",
+         "provenance paths of version arguments + who-may-call on raw batch deletes + path rule on the latest-state shortcut"),
+ "C16": ("two necessary conditions: the commitment tree is read from the prefix it is written under (write path Root vs read path NewReadOnly); VerifyProof returns true only after the recomputed root equals the given root",
+         "writer/reader constant agreement + path-sensitive must-pass-through"),
 }
 
 NOT_APPLICABLE = {
